@@ -5,3 +5,4 @@ import GoldilocksVerif.Props.C13
 import GoldilocksVerif.Props.C14
 import GoldilocksVerif.Props.C10
 import GoldilocksVerif.Props.C15
+import GoldilocksVerif.Props.C09
